@@ -9,7 +9,10 @@
  *
  *   SEARCH_FOR_START  (start-of-frame mode only) END -> in frame
  *   SEARCH_FOR_END    discard up to and including END, then classic: in frame,
- *                     start-of-frame mode: SEARCH_FOR_START
+ *                     start-of-frame: SEARCH_FOR_START (a decoder that went
+ *                     "in frame" here would, once off by one delimiter, lose
+ *                     every following frame: delivery at the start END, error
+ *                     at the payload, skip to the end END, and so on)
  *   NORMAL            in frame: ordinary octet -> emitted; ESC ESC_END -> END;
  *                     ESC ESC_ESC -> ESC; END -> end of frame, return 1,
  *                     classic: NORMAL again, start-of-frame: SEARCH_FOR_START;
@@ -18,8 +21,9 @@
  * Where the property is silent the check accepts everything: the state after
  * an error return (except: classic mode, invalid escape whose second octet is
  * END -- that END is "the next delimiter", so the decoder must be in frame
- * afterwards), the return value for a non-delimiter met while searching for
- * the start, the sink content on error returns.
+ * afterwards; start-of-frame mode, stop at a missing start delimiter), the
+ * return value for a non-delimiter met while searching for the start, the sink
+ * content on error returns.
  *
  * Because the decoder keeps no memory besides ctx->state (checked here: an
  * arbitrary pre-state), and every loop iteration consumes one or two octets,
@@ -46,6 +50,150 @@ struct vp_in {
 };
 VP_DECLARE_INPUT();
 
+struct refout {
+    int oc;        /* how the call ends */
+    unsigned st;   /* state at that point (meaningful for O_EOF) */
+    c12_len c;     /* octets consumed */
+    c12_len m;     /* octets emitted */
+    uint8_t exp[K];
+    uint8_t bad2;  /* second octet of the invalid escape */
+    bool midesc;   /* source ended between ESC and its second octet */
+    bool skipped;  /* the call passed through SEARCH_FOR_END + END */
+};
+
+static void ref_call(struct refout *r, const struct vp_in *in, bool sof)
+{
+    const c12_len k = in->k, cap = in->cap;
+    unsigned st = in->state;
+    c12_len c = 0, m = 0;
+    r->oc = O_NONE;
+    r->bad2 = 0;
+    r->midesc = false;
+    r->skipped = false;
+    for (unsigned it = 0; it <= K; ++it) {
+        if (r->oc != O_NONE)
+            break;
+        if (c == k) {
+            r->oc = O_SRC_ERR;
+            break;
+        }
+        const uint8_t o = in->oct[c];
+        if (st == ST_S) {
+            c++;
+            if (o == C_END)
+                st = ST_N;
+            else
+                r->oc = O_S_GARBAGE;
+        } else if (st == ST_E) {
+            c++;
+            if (o == C_END) {
+                st = sof ? ST_S : ST_N;
+                r->skipped = true;
+            }
+        } else {
+            uint8_t v = o;
+            if (o == C_END) {
+                c++;
+                r->oc = O_EOF;
+                st = sof ? ST_S : ST_N;
+                break;
+            }
+            if (o == C_ESC) {
+                if (c + 1 == k) {
+                    c++;
+                    r->oc = O_SRC_ERR;
+                    r->midesc = true;
+                    break;
+                }
+                const uint8_t o2 = in->oct[c + 1];
+                c += 2;
+                if (o2 == C_ESC_END) {
+                    v = C_END;
+                } else if (o2 == C_ESC_ESC) {
+                    v = C_ESC;
+                } else {
+                    r->oc = O_BAD_ESC;
+                    r->bad2 = o2;
+                    break;
+                }
+            } else {
+                c++;
+            }
+            if (m == cap) {
+                r->oc = O_SINK_ERR;
+                break;
+            }
+            r->exp[m++] = v;
+        }
+    }
+    r->st = st;
+    r->c = c;
+    r->m = m;
+}
+
+/* what the real call did */
+struct obs {
+    int rc;
+    unsigned state;
+    c12_len pos, n;
+    uint8_t out[K];
+};
+
+/* bit i set = obligation i violated */
+enum {
+    F_EOF_RC = 1, F_EOF_POS = 2, F_EOF_LEN = 4, F_EOF_OCTETS = 8,
+    F_EOF_STATE = 16, F_ESC_RC = 32, F_ESC_END_STATE = 64, F_SRC = 128,
+    F_SINK = 256, F_REF = 512, F_S_GARBAGE_STATE = 1024
+};
+
+static unsigned judge(const struct refout *r, const struct obs *o,
+                      const struct vp_in *in, bool sof)
+{
+    unsigned f = 0;
+    switch (r->oc) {
+    case O_EOF:
+        if (o->rc != 1)
+            f |= F_EOF_RC;
+        if (o->pos != r->c)
+            f |= F_EOF_POS;
+        if (o->n != r->m)
+            f |= F_EOF_LEN;
+        for (c12_len i = 0; i < K; ++i)
+            if (i < r->m && i < o->n && o->out[i] != r->exp[i])
+                f |= F_EOF_OCTETS;
+        if (o->state != (sof ? ST_S : ST_N))
+            f |= F_EOF_STATE;
+        break;
+    case O_BAD_ESC:
+        if (o->rc != -EILSEQ)
+            f |= F_ESC_RC;
+        if (!sof && r->bad2 == C_END && o->state != ST_N)
+            f |= F_ESC_END_STATE;
+        break;
+    case O_S_GARBAGE:
+        /* the property does not say how a missing start delimiter is
+         * reported; but a decoder that stops here must go on to discard the
+         * rest of this frame (if it kept waiting for a start delimiter it
+         * would take the frame's END for one and stay off by one delimiter
+         * for ever) */
+        if (o->pos == r->c && o->state != ST_E)
+            f |= F_S_GARBAGE_STATE;
+        break;
+    case O_SRC_ERR:
+        if (o->rc != in->src_err)
+            f |= F_SRC;
+        break;
+    case O_SINK_ERR:
+        if (o->rc != in->sink_err)
+            f |= F_SINK;
+        break;
+    default:
+        f |= F_REF;
+        break;
+    }
+    return f;
+}
+
 void harness(void)
 {
     VP_INPUT(in);
@@ -62,78 +210,15 @@ void harness(void)
     VP_ASSUME(in.cap <= K);
     VP_ASSUME(c12_is_error(in.src_err));
     VP_ASSUME(c12_is_error(in.sink_err));
-    const c12_len k = in.k;
-    const c12_len cap = in.cap;
-
-    /* ---- reference automaton over one call ---- */
-    unsigned st = in.state;
-    c12_len c = 0, m = 0;
-    uint8_t exp[K];
-    int oc = O_NONE;
-    uint8_t bad2 = 0;
-    bool midesc = false;
-    for (unsigned it = 0; it <= K; ++it) {
-        if (oc != O_NONE)
-            break;
-        if (c == k) {
-            oc = O_SRC_ERR;
-            break;
-        }
-        const uint8_t o = in.oct[c];
-        if (st == ST_S) {
-            c++;
-            if (o == C_END)
-                st = ST_N;
-            else
-                oc = O_S_GARBAGE;
-        } else if (st == ST_E) {
-            c++;
-            if (o == C_END)
-                st = sof ? ST_S : ST_N;
-        } else {
-            uint8_t v = o;
-            if (o == C_END) {
-                c++;
-                oc = O_EOF;
-                st = sof ? ST_S : ST_N;
-                break;
-            }
-            if (o == C_ESC) {
-                if (c + 1 == k) {
-                    c++;
-                    oc = O_SRC_ERR;
-                    midesc = true;
-                    break;
-                }
-                const uint8_t o2 = in.oct[c + 1];
-                c += 2;
-                if (o2 == C_ESC_END) {
-                    v = C_END;
-                } else if (o2 == C_ESC_ESC) {
-                    v = C_ESC;
-                } else {
-                    oc = O_BAD_ESC;
-                    bad2 = o2;
-                    break;
-                }
-            } else {
-                c++;
-            }
-            if (m == cap) {
-                oc = O_SINK_ERR;
-                break;
-            }
-            exp[m++] = v;
-        }
-    }
 
     /* ---- the real call ---- */
     uint8_t octets[K];
     C12_COPY(octets, in.oct);
-    uint8_t out[K];
-    C12_FILL(out, 0);
-    struct ssrc src = { .data = octets, .n = k, .pos = 0, .err = in.src_err };
-    struct ssink snk = { .data = out, .phys = K, .cap = cap, .n = 0,
+    struct obs o;
+    C12_FILL(o.out, 0);
+    struct ssrc src = { .data = octets, .n = in.k, .pos = 0,
+                        .err = in.src_err };
+    struct ssink snk = { .data = o.out, .phys = K, .cap = in.cap, .n = 0,
                          .err = in.sink_err };
     Source source = OCTET_SOURCE_INIT(ssrc_get, &src);
     Sink sink = OCTET_SINK_INIT(ssink_put, &snk);
@@ -141,7 +226,10 @@ void harness(void)
     ctx.state = in.state;
     ctx.flags = sof ? RFC1055_WITH_SOF : RFC1055_DEFAULT;
 
-    const int rc = rfc1055_decode(&ctx, &source, &sink);
+    o.rc = rfc1055_decode(&ctx, &source, &sink);
+    o.state = ctx.state;
+    o.pos = src.pos;
+    o.n = snk.n;
 
     /* ---- every outcome ---- */
     VP_ASSERT(!snk.overflow && snk.n <= src.pos,
@@ -149,54 +237,52 @@ void harness(void)
     VP_ASSERT(ctx.flags == (sof ? RFC1055_WITH_SOF : RFC1055_DEFAULT),
               "C12.step.mode-unchanged");
 
-    switch (oc) {
-    case O_EOF:
-        VP_ASSERT(rc == 1, "C12.step.END-in-frame-signals-end-of-frame");
-        VP_ASSERT(src.pos == c, "C12.step.frame-consumed-up-to-its-END");
-        VP_ASSERT(snk.n == m, "C12.step.frame-length");
-        for (c12_len i = 0; i < K; ++i)
-            if (i < m)
-                VP_ASSERT(out[i] == exp[i], "C12.step.frame-octets");
-        VP_ASSERT(ctx.state == (sof ? ST_S : ST_N),
-                  "C12.step.ready-for-next-frame");
-        VP_WITNESS(in.state == ST_E && m >= 1, "C12.step.skip-then-frame.reach");
-        VP_WITNESS(in.state == ST_N && m == K - 1, "C12.step.frame.reach");
-#if !defined(SOF) || SOF
-        VP_WITNESS(sof && in.state == ST_S && m >= 1 && exp[0] == C_END,
-                   "C12.step.sof-frame.reach");
-#endif
-        break;
-    case O_BAD_ESC:
-        VP_ASSERT(rc == -EILSEQ, "C12.step.invalid-escape-is-EILSEQ");
-        if (!sof && bad2 == C_END)
-            VP_ASSERT(ctx.state == ST_N,
-                      "C12.step.classic-END-after-ESC-is-a-delimiter");
+    /* ---- reference ---- */
+    struct refout r;
+    ref_call(&r, &in, sof);
+    const unsigned f = judge(&r, &o, &in, sof);
+    VP_ASSERT(!(f & F_REF), "C12.step.reference-terminates");
+    VP_ASSERT(!(f & F_EOF_RC), "C12.step.END-in-frame-signals-end-of-frame");
+    VP_ASSERT(!(f & F_EOF_POS), "C12.step.frame-consumed-up-to-its-END");
+    VP_ASSERT(!(f & F_EOF_LEN), "C12.step.frame-length");
+    VP_ASSERT(!(f & F_EOF_OCTETS), "C12.step.frame-octets");
+    VP_ASSERT(!(f & F_EOF_STATE), "C12.step.ready-for-next-frame");
+    VP_ASSERT(!(f & F_ESC_RC), "C12.step.invalid-escape-is-EILSEQ");
+    VP_ASSERT(!(f & F_ESC_END_STATE),
+              "C12.step.classic-END-after-ESC-is-a-delimiter");
+    VP_ASSERT(!(f & F_S_GARBAGE_STATE),
+              "C12.step.sof-missing-start-discards-rest-of-frame");
+    VP_ASSERT(!(f & F_SRC), "C12.step.source-error-unchanged");
+    VP_ASSERT(!(f & F_SINK), "C12.step.sink-error-unchanged");
+
+    /* ---- reachability of the interesting ways a call can go ---- */
+    VP_WITNESS(r.oc == O_EOF && in.state == ST_N && r.m == K - 2
+                   && r.exp[0] == C_ESC,
+               "C12.step.frame.reach");
+    VP_WITNESS(r.oc == O_BAD_ESC && r.bad2 != C_END && r.m >= 1
+                   && o.rc == -EILSEQ,
+               "C12.step.bad-esc.reach");
+    VP_WITNESS(r.oc == O_SRC_ERR && r.midesc && r.m >= 1,
+               "C12.step.source-error-mid-escape.reach");
+    VP_WITNESS(r.oc == O_SRC_ERR && in.state == ST_E && r.c == K
+                   && in.src_err == -EILSEQ,
+               "C12.step.source-error-while-skipping.reach");
+    VP_WITNESS(r.oc == O_SINK_ERR && r.m >= 1 && in.sink_err == -1,
+               "C12.step.sink-error.reach");
 #if !defined(SOF) || !SOF
-        VP_WITNESS(!sof && bad2 == C_END && m >= 1, "C12.step.esc-end.reach");
+    VP_WITNESS(!sof && r.oc == O_EOF && in.state == ST_E && r.m >= 1,
+               "C12.step.classic-skip-then-frame.reach");
+    VP_WITNESS(!sof && r.oc == O_BAD_ESC && r.bad2 == C_END && r.m >= 1,
+               "C12.step.classic-esc-end.reach");
 #endif
-        VP_WITNESS(bad2 != C_END && in.state == ST_E, "C12.step.bad-esc.reach");
-        break;
-    case O_S_GARBAGE:
-        /* the property does not say how a missing start delimiter is
-         * reported */
 #if !defined(SOF) || SOF
-        VP_WITNESS(in.state == ST_E && rc == -EILSEQ,
-                   "C12.step.missing-start.reach");
+    VP_WITNESS(sof && r.oc == O_EOF && in.state == ST_S && r.m >= 1
+                   && r.exp[0] == C_END,
+               "C12.step.sof-frame.reach");
+    VP_WITNESS(sof && r.oc == O_S_GARBAGE && !r.skipped && o.rc == -EILSEQ,
+               "C12.step.sof-missing-start.reach");
+    VP_WITNESS(sof && r.oc == O_EOF && r.skipped && r.m >= 1,
+               "C12.step.sof-skip-then-frame.reach");
 #endif
-        break;
-    case O_SRC_ERR:
-        VP_ASSERT(rc == in.src_err, "C12.step.source-error-unchanged");
-        VP_WITNESS(midesc && m >= 1, "C12.step.source-error-mid-escape.reach");
-        VP_WITNESS(in.state == ST_E && c == K && in.src_err == -EILSEQ,
-                   "C12.step.source-error-while-skipping.reach");
-        break;
-    case O_SINK_ERR:
-        VP_ASSERT(rc == in.sink_err, "C12.step.sink-error-unchanged");
-        VP_WITNESS(m >= 1 && in.sink_err == -1, "C12.step.sink-error.reach");
-        break;
-    default:
-        VP_ASSERT(false, "C12.step.reference-terminates");
-        break;
-    }
 }
 VP_MAIN_EPILOGUE()
